@@ -376,8 +376,8 @@ def _create_default_utility(
         {
             "name": name,
             "type": ut_type,
-            "t_supply": T + (zone_config.DT_CONT) * a,
-            "t_target": T + (zone_config.DT_CONT - zone_config.DT_PHASE_CHANGE) * a,
+            "t_supply": T + (zone_config.DT_CONT + zone_config.DT_PHASE_CHANGE) * a,
+            "t_target": T + (zone_config.DT_CONT) * a,
             "heat_flow": 0,
             "dt_cont": zone_config.DT_CONT,
             "price": zone_config.UTILITY_PRICE,
